@@ -599,9 +599,8 @@ func runC13(c *Ctx) {
 				// an error is right only if the previous symbol (if any) is too small and nothing admissible holds l
 				okv = !found && s == nil
 				detail = "refused although a symbol fits, or state kept"
-			} else if prev != nil && l <= prev.GetDataCapacity() {
-				okv = s == prev
-				detail = "symbol replaced although the current one holds the data"
+			} else if prev != nil && l <= prev.GetDataCapacity() && s == prev {
+				okv = true // kept: it still holds the data (the property does not ask for a downgrade)
 			} else {
 				best, found := ref.dmExpect(l, shape, mn, mx)
 				okv = found && s != nil && s.GetDataCapacity() == best
